@@ -26,10 +26,7 @@ symbols are numbered in iteration order. -/
 def internBuiltins {V} (table : List String) (walk : List (String × V)) : List String :=
   (walk.map (·.1)).foldl intern table
 
-/-- `symnum`: the number of a symbol = position in the table + 1 (0 = not interned). -/
-def symnum (table : List String) (name : String) : Nat :=
-  match table.idxOf? name with
-  | some i => i + 1
-  | none => 0
+/-- `symnum` (now in Model/MapWalk.lean). -/
+abbrev symnum := MapWalk.symnum
 
 end ZygoVerif.Legacy
